@@ -12,12 +12,14 @@ import (
 )
 
 func (e *Engine) newFV(fn *ssa.Function, con *Contract, mode Mode) *FV {
-	v := &FV{eng: e, top: fn, con: con, mode: mode, preSeen: map[string]bool{}, arrays: map[string]string{}, refArrays: map[string]bool{}, assumed: map[string]bool{}, trusted: map[string]bool{},
+	v := &FV{eng: e, top: fn, con: con, mode: mode, preSeen: map[string]bool{}, arrays: map[string]string{}, refArrays: map[string]bool{}, stableArrays: map[string]bool{}, assumed: map[string]bool{}, trusted: map[string]bool{},
 		oblNames: map[string]int{}, strLits: map[string]Term{}, kindCount: map[string]int{}}
 	v.n0 = "N0!"
 	v.pre("n0", "(declare-const N0! Int)")
 	v.pre("n0pos", "(assert (> N0! 0))")
 	v.pre("dyn_type", "(declare-fun dyn_type (Int) Int)")
+	v.regArray("CALLS", fmt.Sprintf("(Array Int %s)", v.idx()))
+	v.regArray("ARGNN", "(Array Int Bool)")
 	return v
 }
 
@@ -126,7 +128,21 @@ func (e *Engine) VerifyFunction(fn *ssa.Function, con *Contract) (v *FV) {
 		s := v.sortOf(fvv.Type())
 		name := fmt.Sprintf("fv_%s", mangle(fvv.Name()))
 		v.emit(fmt.Sprintf("(declare-const %s %s)", name, s))
-		fr.vals[fvv] = TV{T: name, Ty: fvv.Type(), Sort: s}
+		tv := TV{T: name, Ty: fvv.Type(), Sort: s}
+		fr.vals[fvv] = tv
+		if _, isPtr := fvv.Type().Underlying().(*types.Pointer); isPtr {
+			// captured by reference: the name denotes the variable's current value
+			v.assume("true", fmt.Sprintf("(and (> %s 0) (<= %s %s))", name, name, v.n0))
+			st.addr[fvv.Name()] = tv
+			// captured variables belong to the enclosing function: foreign code cannot reassign them
+			elem := fvv.Type().Underlying().(*types.Pointer).Elem()
+			if _, isS := elem.Underlying().(*types.Struct); !isS {
+				v.protectedCells = append(v.protectedCells, protectedCell{v.cellArray(elem), name})
+				v.trusted["captured variables of a closure under contract are not reassigned by foreign code"] = true
+			}
+		} else {
+			fr.params[fvv.Name()] = tv
+		}
 	}
 	if fn.Signature.Recv() != nil && len(fn.Params) > 0 {
 		for _, h := range con.Holds {
@@ -176,6 +192,10 @@ func (e *Engine) VerifyFunction(fn *ssa.Function, con *Contract) (v *FV) {
 		}
 	}
 	preLen := len(v.script)
+	entryAddr := map[string]TV{}
+	for k, x := range st.addr {
+		entryAddr[k] = x
+	}
 	exits := v.execBody(fr, st)
 	// post-conditions at every normal exit
 	var reaches []Term
@@ -189,7 +209,7 @@ func (e *Engine) VerifyFunction(fn *ssa.Function, con *Contract) (v *FV) {
 			vars[k] = x
 		}
 		bindResultNames(vars, fn.Signature, ex.results)
-		penv := &ExprEnv{v: v, vars: vars, snap: ex.st.snap, old: fr.oldSnap, reach: ex.st.reach, what: "ensures of " + con.Key}
+		penv := &ExprEnv{v: v, vars: vars, addr: entryAddr, snap: ex.st.snap, old: fr.oldSnap, reach: ex.st.reach, what: "ensures of " + con.Key}
 		if fn.Pkg != nil {
 			penv.pkg = fn.Pkg.Pkg
 		}
@@ -198,7 +218,13 @@ func (e *Engine) VerifyFunction(fn *ssa.Function, con *Contract) (v *FV) {
 				v.specError(g, err)
 			}
 		}
-		for i, c := range con.Ensures {
+		clauses := con.Ensures
+		kind := "post"
+		if ex.recovered {
+			clauses = con.EnsuresRecovered
+			kind = "post.recovered"
+		}
+		for i, c := range clauses {
 			t, err := penv.EvalBool(c.Text)
 			if err != nil {
 				v.specError(c, err)
@@ -208,7 +234,7 @@ func (e *Engine) VerifyFunction(fn *ssa.Function, con *Contract) (v *FV) {
 			if lbl == "" {
 				lbl = fmt.Sprint(i + 1)
 			}
-			v.oblige("post", lbl, fmt.Sprintf("%s:%d", shortFile(c.File), c.Line), c.Text, ex.st.reach, t)
+			v.oblige(kind, lbl, fmt.Sprintf("%s:%d", shortFile(c.File), c.Line), c.Text, ex.st.reach, t)
 			// later clauses at this exit may rely on earlier ones (each is proved under its
 			// predecessors: together they prove the conjunction)
 			v.assume(ex.st.reach, t)
